@@ -270,6 +270,18 @@ Theorem C12_handshake_without_deadline_refuted :
   forall waited, hstep None waited HGiveUp = None.
 Proof. exact handshake_without_deadline_refuted. Qed.
 
+(** Overlapping reconnect() calls (several failed Sends, the pinger, the silence rule):
+    the status check and its update are one critical section, so exactly one of them
+    dials (in the LTS: LReconnectEnter is one atomic step, C12_single_reconnect);
+    checking before taking the lock is refuted. *)
+Theorem C12_reconnect_atomic_dials_once :
+  forall ls, (forall l, In l ls -> exists i, l = KAtomic i) -> dials (fold_left kstep ls kinit) <= 1.
+Proof. exact reconnect_atomic_dials_once. Qed.
+
+Theorem C12_reconnect_split_check_refuted :
+  dials (fold_left kstep [KCheck 0; KCheck 1; KSet 0; KSet 1] kinit) = 2.
+Proof. exact reconnect_split_check_refuted. Qed.
+
 (** PARTIAL (liveness): after a drop the path ping failure -> reconnect -> done is
     enabled and re-establishes the connection; that it is taken within a bounded
     time is a fairness / wall-clock fact, not proved. *)
